@@ -66,31 +66,40 @@ Qed.""" % (fi, F, M))
 
 
 def wrapper_without_dtype_asserts():
-    """The public wrapper compiled from its own source text (re-read on every run) with the `assert ....dtype == ...`
-    statements removed: they cannot hold for the tracer's object arrays; output dtypes are compared by the correspondence
-    check instead.  Everything else — shape checks, mask -> face indices, the call of slice_faces_plane — runs as written."""
+    """The public wrapper compiled from its module's own source text (re-read on every run).  Every
+    `assert <x>.dtype == <D>` in any function of that module is rewritten to `assert _dtype_ok(<x>, <D>)`, which is the
+    same test for ordinary arrays (so the bool-mask input assertion and the integer face/mapping assertions stay live)
+    and is true for the tracer's object arrays of symbols (the float64 vertex assertions cannot be evaluated on those;
+    output dtypes are compared by the correspondence check instead).  Everything else — shape checks, mask -> face
+    indices, the call of slice_faces_plane, helpers the wrapper calls — runs as written.  Any other assertion that
+    mentions dtype is not understood: fail closed."""
     import ast
     import inspect
-    import textwrap
 
     import polliwog.plane._slicing as mod
 
-    tree = ast.parse(textwrap.dedent(inspect.getsource(mod.slice_triangles_by_plane)))
-    stripped = []
+    tree = ast.parse(inspect.getsource(mod))
+    rewritten = []
 
-    class Strip(ast.NodeTransformer):
+    class Rewrite(ast.NodeTransformer):
         def visit_Assert(self, node):
-            if "dtype" in ast.unparse(node.test):
-                stripped.append(ast.unparse(node.test))
-                return ast.Pass()
-            return node
+            t = node.test
+            if "dtype" not in ast.unparse(t):
+                return node
+            if (isinstance(t, ast.Compare) and len(t.ops) == 1 and isinstance(t.ops[0], ast.Eq)
+                    and isinstance(t.left, ast.Attribute) and t.left.attr == "dtype"):
+                rewritten.append(ast.unparse(t))
+                node.test = ast.Call(func=ast.Name(id="_dtype_ok", ctx=ast.Load()), args=[t.left.value, t.comparators[0]], keywords=[])
+                return node
+            raise RuntimeError("dtype assertion of an unknown form in polliwog.plane._slicing: %s" % ast.unparse(t))
 
-    tree = ast.fix_missing_locations(Strip().visit(tree))
-    if len(stripped) != 4:  # faces_to_slice, face_mapping, vertices, faces — anything else: fail closed
-        raise RuntimeError("unexpected dtype assertions in slice_triangles_by_plane: %r" % stripped)
-    ns = {}
-    exec(compile(tree, mod.__file__, "exec"), mod.__dict__, ns)  # globals = the module's own (the tracer patches np there)
-    return ns["slice_triangles_by_plane"]
+    funcs = [Rewrite().visit(n) for n in tree.body if isinstance(n, ast.FunctionDef)]
+    if not any(n.name == "slice_triangles_by_plane" for n in funcs):
+        raise RuntimeError("slice_triangles_by_plane is no longer a plain function of polliwog.plane._slicing")
+    g = dict(mod.__dict__)  # copied while the tracer's numpy shim is patched in, so the functions below see the shim
+    g["_dtype_ok"] = lambda arr, d: arr.dtype == object or arr.dtype == d
+    exec(compile(ast.fix_missing_locations(ast.Module(body=funcs, type_ignores=[])), mod.__file__, "exec"), g)
+    return g["slice_triangles_by_plane"]
 
 
 def _wrapper_lemma(pattern, selected, mask_coq):
